@@ -3,6 +3,7 @@ package props
 import (
 	"bytes"
 	"fmt"
+	"strings"
 	"testing"
 
 	"verifharness/model"
@@ -55,6 +56,22 @@ func makeRequest(kind string, session int, system []byte) ast.HSMSMessage {
 		return ast.NewHSMSMessageDeselectRsp(ast.NewHSMSMessageDeselectReq(uint16(session), system), 0)
 	case "linktest.rsp":
 		return ast.NewHSMSMessageLinktestRsp(ast.NewHSMSMessageLinktestReq(system))
+	case "raw:select.req", "raw:deselect.req", "raw:linktest.req", "decoded:select.req", "decoded:deselect.req", "decoded:linktest.req":
+		// a request that did not come from a request constructor: its other header bytes are arbitrary
+		st := map[string]byte{"select.req": 1, "deselect.req": 3, "linktest.req": 5}[kind[strings.Index(kind, ":")+1:]]
+		s0, s1 := byte(session>>8), byte(session)
+		if st == 5 {
+			s0, s1 = 0xFF, 0xFF
+		}
+		hdr := []byte{s0, s1, 0x80 | system[0] | 1, system[1] | 2, 0, st, system[0], system[1], system[2], system[3]}
+		if strings.HasPrefix(kind, "raw:") {
+			return ast.NewHSMSControlMessage(hdr)
+		}
+		m, ok := hsms.Parse(append([]byte{0, 0, 0, 10}, hdr...))
+		if !ok {
+			panic("harness: cannot decode a control message")
+		}
+		return m
 	case "undefined":
 		return ast.NewHSMSControlMessage([]byte{byte(session >> 8), byte(session), 0, 0, 0, 8, system[0], system[1], system[2], system[3]})
 	case "undefined-ptype":
@@ -116,6 +133,12 @@ func checkC14(c c14Case) (ci caseInfo, err error) {
 			}
 		})
 		ci.label("rsp-from:" + c.ReqKind)
+		if k := c.ReqKind; strings.Contains(k, ":") {
+			k = k[strings.Index(k, ":")+1:]
+			if k == needs {
+				needs = c.ReqKind
+			}
+		}
 		if c.ReqKind != needs {
 			if !panicked {
 				return ci, fmt.Errorf("%s accepted a %s as its request (result %x)", c.Ctor, c.ReqKind, msg.ToBytes())
@@ -207,7 +230,7 @@ func TestC14(t *testing.T) {
 		run(c14Case{Ctor: "deselect.rsp", ReqKind: "deselect.req", Session: sess, Code: int(r >> 32 & 0xFF), System: rsys()})
 	}
 	// all status codes, all request kinds for every response constructor
-	kinds := []string{"select.req", "select.rsp", "deselect.req", "deselect.rsp", "linktest.req", "linktest.rsp", "reject.req", "separate.req", "undefined", "undefined-ptype", "data message"}
+	kinds := []string{"raw:select.req", "raw:deselect.req", "raw:linktest.req", "decoded:select.req", "decoded:deselect.req", "decoded:linktest.req", "select.req", "select.rsp", "deselect.req", "deselect.rsp", "linktest.req", "linktest.rsp", "reject.req", "separate.req", "undefined", "undefined-ptype", "data message"}
 	for code := 0; code < 256; code++ {
 		for _, ctor := range []string{"select.rsp", "deselect.rsp", "linktest.rsp"} {
 			for _, k := range kinds {
